@@ -16,9 +16,13 @@ import (
 	"strings"
 
 	"github.com/Oneledger/protocol/action"
+	"github.com/Oneledger/protocol/consensus"
 	"github.com/Oneledger/protocol/data/governance"
+	"github.com/Oneledger/protocol/data/keys"
 	"github.com/Oneledger/protocol/identity"
 	"github.com/Oneledger/protocol/serialize"
+	ethcmn "github.com/ethereum/go-ethereum/common"
+	ethcrypto "github.com/ethereum/go-ethereum/crypto"
 )
 
 func init() { subcmds["c02"] = c02Main }
@@ -48,6 +52,7 @@ type c02Spec struct {
 	Name   string       `json:"name"`
 	World  [3]int       `json:"world"` // NewWorld(nvals, nusers, nextra)
 	Blocks []c02Block `json:"blocks"`
+	StakeMaturity int64 `json:"stake_maturity,omitempty"` // genesis stakingOptions.maturityTime (0 = the harness default 3)
 }
 
 // c02Block: a block of a replayable history; Pre = transactions passed through CheckTx on the same replica right before this
@@ -84,6 +89,7 @@ type c02Runner struct {
 	prefix   map[string]int
 	nonce    int
 	users    map[string]Key
+	lockAuth  map[c02Key]bool     // bid escrow records locked by a transaction their owner (the bidder) signed
 	checked   map[string][2]int64 // tx bytes -> (CheckTx code, height of the block it preceded)
 	blockVals []*identity.Validator // validator records of the committed state at block start (the election queue's source)
 }
@@ -110,13 +116,26 @@ func (r *c02Runner) observe() *c02View {
 }
 
 func c02NewRunner(name string, world [3]int, customize func(*GenesisSpec)) *c02Runner {
+	return c02NewRunnerM(name, world, customize, 0)
+}
+
+func c02NewRunnerM(name string, world [3]int, customize func(*GenesisSpec), stakeMaturity int64) *c02Runner {
 	w := NewWorld(world[0], world[1], world[2])
 	g := w.Genesis()
 	if customize != nil {
 		customize(g)
 	}
+	if stakeMaturity > 0 {
+		prev := g.Customize
+		g.Customize = func(st *consensus.AppState) {
+			if prev != nil {
+				prev(st)
+			}
+			st.Governance.StakingOptions.MaturityTime = stakeMaturity
+		}
+	}
 	rep := NewReplica(g, ReplicaOpts{NodeVal: w.Vals[0].Val})
-	r := &c02Runner{w: w, rep: rep, in: c02NewIntern(), c: &c02Case{Spec: c02Spec{Name: name, World: world}}, protocol: map[string]bool{}, unknown: map[string]bool{}, bad: map[string]bool{}, prefix: map[string]int{}, users: map[string]Key{}}
+	r := &c02Runner{w: w, rep: rep, in: c02NewIntern(), c: &c02Case{Spec: c02Spec{Name: name, World: world, StakeMaturity: stakeMaturity}}, protocol: map[string]bool{}, unknown: map[string]bool{}, bad: map[string]bool{}, prefix: map[string]int{}, users: map[string]Key{}}
 	rep.InitChain()
 	r.cur = r.observe()
 	r.c.Gen = r.in.recs(r.cur.Led)
@@ -229,6 +248,34 @@ func (r *c02Runner) blockPre1(in *BlockIn, descr []string, pre [][]byte) {
 					add(a)
 					if st, ok := before.Vals[a]; ok {
 						add(st) // validator operations charge their fee to the stake account
+					}
+				}
+			}
+			// bid escrow: a record locked (raised) in a step the bidder signed carries his authority; when the asset owner later
+			// ACCEPTS that bid the record is paid out to him - the bidder signed the bid, so that debit is authorised
+			if r.lockAuth == nil {
+				r.lockAuth = map[c02Key]bool{}
+			}
+			if s.OK {
+				for k, a := range after.Led {
+					if k.Bucket != c02BBidEscrow {
+						continue
+					}
+					if old := before.Led[k]; old == nil || old.Cmp(a) < 0 {
+						signed := false
+						for _, ai := range s.Auth {
+							if r.in.owners[ai] == k.Owner {
+								signed = true
+							}
+						}
+						r.lockAuth[k] = signed
+					}
+				}
+				if s.Type == "BID_OWNER_DECISION" {
+					for k := range before.Led {
+						if _, still := after.Led[k]; k.Bucket == c02BBidEscrow && !still && r.lockAuth[k] {
+							s.Auth = append(s.Auth, r.in.owner(k.Owner))
+						}
 					}
 				}
 			}
@@ -385,6 +432,34 @@ func c02Witness(name string, w *World) *History {
 		s.empty(2)
 		s.block([][]byte{txDelegate(u0, oltAmt("250000000000000000000"), s.memo()), txDelegate(u1, oltAmt("70000000000000000000"), s.memo())}, "delegate 250", "delegate 70")
 		s.empty(5)
+	case "bid_negative_amount":
+		// BID_CREATE / further offer / counter offer with negative, zero and ordinary amounts (f99f70a: a negative bid used to
+		// CREDIT the bidder: Balances.MinusFromAddress of a negative coin)
+		s.empty(2)
+		h := int64(len(s.h.Blocks) + 1)
+		conv := bidConvID(u0.Addr, "wbid", u1.Addr, h)
+		s.block([][]byte{txBidCreate(u1, u0.Addr, "wbid", bidExample, oltAmt("5000000000000000000"), bidFar, s.memo()),
+			txBidCreate(u2, u0.Addr, "wneg", bidExample, oltAmt("-5000000000000000000"), bidFar, s.memo()),
+			txBidCreate(w.Poor[0], u0.Addr, "wneg2", bidExample, oltAmt("-1"), bidFar, s.memo()),
+			txBidCreate(u2, u0.Addr, "wzero", bidExample, oltAmt("0"), bidFar, s.memo())},
+			"bid 5 OLT", "bid -5 OLT", "bid -1 by a poor account", "bid 0")
+		s.block([][]byte{txBidCounter(u0, conv, oltAmt("-1"), s.memo()), txBidCounter(u0, conv, oltAmt("9000000000000000000"), s.memo())}, "counter offer -1", "counter offer 9 OLT")
+		s.block([][]byte{txBidOffer(u1, conv, oltAmt("-7000000000000000000"), s.memo()), txBidOffer(u1, conv, oltAmt("7000000000000000000"), s.memo())}, "further offer -7 OLT", "further offer 7 OLT")
+		s.block([][]byte{txBidExpire(u2, conv, s.memo())}, "expire by a third party")
+		s.empty(1)
+	case "olvm_sstore_refund":
+		// a contract whose call with empty data sets storage slot 0 and with non-empty data CLEARS it (SSTORE x -> 0 earns a gas
+		// refund): what the sender pays (post-refund gas) must be what the fee pool receives; also a reverting and a gas-burning call
+		e0, e1 := w.Eth[0], w.Eth[1]
+		tog := keys.Address(ethcrypto.CreateAddress(ethcmn.BytesToAddress(e0.Addr.Bytes()), 0).Bytes())
+		rev := keys.Address(ethcrypto.CreateAddress(ethcmn.BytesToAddress(e0.Addr.Bytes()), 1).Bytes())
+		s.empty(2)
+		s.block([][]byte{txOLVM(e0, nil, 0, "0", 200000, c17Deployer(c17RtToggle)), txOLVM(e0, nil, 1, "0", 200000, c17Deployer(c17RtRevert))}, "olvm deploy toggle", "olvm deploy revert")
+		s.block([][]byte{txOLVM(e0, &tog, 2, "0", 100000, nil), txOLVM(e1, &tog, 0, "0", 100000, []byte{1})}, "olvm call: set slot 0", "olvm call: clear slot 0 (refund)")
+		s.block([][]byte{txOLVM(e1, &tog, 1, "5", 100000, nil), txOLVM(e0, &tog, 3, "0", 100000, []byte{1, 2}), txOLVM(e0, &rev, 4, "7", 100000, nil)},
+			"olvm call with value: set slot 0", "olvm call: clear slot 0 (refund)", "olvm call that reverts")
+		s.block([][]byte{txOLVM(e1, &tog, 2, "0", 100000, nil), txOLVM(e1, &tog, 3, "0", 100000, []byte{9})}, "olvm call: set", "olvm call: clear in the same block (refund)")
+		s.empty(1)
 	case "two_finalized_in_one_block":
 		full := scenarioHistory("govupdate", w)
 		s.h.Blocks, s.h.Descr = full.Blocks[:7], full.Descr[:7]
@@ -452,7 +527,7 @@ func c02RunHistory(name string, world [3]int, h *History, exodus int) (*c02Case,
 
 // c02Replay re-runs a recorded spec exactly (same CheckTx calls at the same places)
 func c02Replay(s c02Spec) (*c02Case, map[string]int) {
-	r := c02NewRunner(s.Name, s.World, nil)
+	r := c02NewRunnerM(s.Name, s.World, nil, s.StakeMaturity)
 	for _, b := range s.Blocks {
 		in := BlockIn{Absent: map[int]bool{}}
 		for _, t := range b.Txs {
@@ -469,6 +544,62 @@ func c02Replay(s c02Spec) (*c02Case, map[string]int) {
 		}
 		r.blockPre(&in, make([]string, len(in.Txs)), pre)
 	}
+	return r.finish(), r.prefix
+}
+
+// c02MaturityLowered: stakingOptions.maturityTime is LOWERED by a finalised configuration proposal (109210 -> 109200, the lowest
+// value the option validation accepts) between the unstake of validator V and two unstakes, in one block, of another stake account A
+// whose maturity height then coincides with V's (h_V + 109210 = h_A + 109200); V signs nothing in A's blocks
+func c02MaturityLowered(name string, ai, vi int) (*c02Case, map[string]int) {
+	world := [3]int{3, 5, 2}
+	r := c02NewRunnerM(name, world, nil, 109210)
+	w := r.w
+	GAS = 1000000
+	A, V := w.Vals[ai], w.Vals[vi]
+	u0, u1 := w.Users[0], w.Users[1]
+	blk := func(d string, txs ...[]byte) {
+		ds := make([]string, len(txs))
+		for i := range ds {
+			ds[i] = d
+		}
+		r.block(&BlockIn{Txs: txs, Absent: map[int]bool{}}, ds)
+	}
+	maturity := func() int64 {
+		o, err := governance.NewStore("g", r.rep.A.VerifDeliver()).GetStakingOptions()
+		if err != nil {
+			return -1
+		}
+		return o.MaturityTime
+	}
+	blk("")
+	blk("")
+	hs := r.rep.H + 1
+	blk("setup", txPropCreateCfg(u0, "cfgmat", "stakingOptions.maturityTime:109200", oltAmt("1000000000"), 10, r.memo()), txUnstake(V, oltAmt("3"), r.memo()))
+	blk("setup", txPropFund(u1, "cfgmat", oltAmt("9000000000"), r.memo()), txUnstake(V, oltAmt("3"), r.memo()))
+	votes := [][]byte{txUnstake(V, oltAmt("3"), r.memo())}
+	for _, v := range w.Vals {
+		votes = append(votes, txPropVote(v, "cfgmat", governance.OPIN_POSITIVE, r.memo()))
+	}
+	blk("vote / V unstakes 3", votes...)
+	hf := int64(0)
+	for i := 0; i < 12 && hf == 0; i++ {
+		blk("V unstakes 3 (maturity 109210 blocks)", txUnstake(V, oltAmt("3"), r.memo()))
+		if maturity() == 109200 {
+			hf = r.rep.H
+		}
+	}
+	if hf == 0 {
+		return r.finish(), r.prefix
+	}
+	// A's blocks: heights h with V's unstake of height h-10 on record, h > hf; V is silent from now on
+	for r.rep.H+1 < hs+10 {
+		blk("")
+	}
+	for i := 0; i < 3 && r.rep.H+1 <= hf+10; i++ {
+		r.block(&BlockIn{Txs: [][]byte{txUnstake(A, oltAmt("7"), r.memo()), txUnstake(A, oltAmt("11"), r.memo())}, Absent: map[int]bool{}},
+			[]string{"A unstakes 7 (maturity 109200: the height of V's unstake made 10 blocks ago)", "A unstakes 11, same block, same maturity height"})
+	}
+	blk("")
 	return r.finish(), r.prefix
 }
 
@@ -621,11 +752,17 @@ func c02Main(args []string) int {
 			}
 		}
 		world := [3]int{3, 5, 2}
-		for _, name := range []string{"proposal_fund_negative", "two_finalized_in_one_block", "withdraw_funds_negative", "withdraw_reward_negative", "olvm_foreign_from", "double_unstake", "self_stake_foreign_slot0", "refused_credit_then_spend", "reward_withdrawal_empty_pool", "reward_withdrawal_empty_pool_checktx"} {
+		for _, name := range []string{"proposal_fund_negative", "two_finalized_in_one_block", "withdraw_funds_negative", "withdraw_reward_negative", "olvm_foreign_from", "double_unstake", "self_stake_foreign_slot0", "refused_credit_then_spend", "reward_withdrawal_empty_pool", "reward_withdrawal_empty_pool_checktx", "bid_negative_amount", "olvm_sstore_refund"} {
 			w := NewWorld(world[0], world[1], world[2])
 			c, p := c02RunHistory("witness_"+name, world, c02Witness(name, w), c02WitnessExodus[name])
 			cases = append(cases, c)
 			mergePrefix(p)
+			rep.SourceHist["witness"]++
+		}
+		for i, p := range [][2]int{{0, 1}, {1, 0}} {
+			c, pf := c02MaturityLowered(fmt.Sprintf("witness_maturity_lowered_%d", i), p[0], p[1])
+			cases = append(cases, c)
+			mergePrefix(pf)
 			rep.SourceHist["witness"]++
 		}
 		for _, name := range scenarioNames {
